@@ -425,6 +425,10 @@ def parse_url(url: str) -> Url:
                 auth = _encode_invalid_chars(auth, _USERINFO_CHARS)
             if port == "":
                 port = None
+            if auth is None and port is None:
+                # An authority made of delimiters only ("//:", "//@") says no
+                # more than an empty one and Url.url renders both the same way.
+                host = host or None
         else:
             auth, host, port = None, None, None
 
